@@ -189,6 +189,12 @@ class Run:
 
     def evaluated(self, n: int = 1) -> None:
         self.coverage["evaluations"] += n
+        # escalated failing-input search of the quick tier (check.py): bounded in wall-clock time, cooperatively
+        dl = getattr(self, "deadline", None)
+        if dl is not None and time.time() > dl:
+            self.stopped_by_deadline = True
+            self.notes["search_stopped_at_deadline"] = True
+            raise StopExploration()
 
     def nontrivial(self, canon: Any) -> None:
         h = hashlib.sha1(json.dumps(canon, sort_keys=True, default=str).encode()).hexdigest()
@@ -205,6 +211,8 @@ class Run:
         # "a valid schema must compile": whether the GENERATED schema was valid is decided by the reference of the documented
         # rules (Lean, text level), not by the generator's intentions.  A schema the reference rejects as well is a
         # generator artefact: counted, sampled into the evidence, never a verdict.
+        if getattr(self, "stopped_by_deadline", False):
+            return  # whatever an `except Exception` handler makes of the stop signal is not a finding
         if replay.get("kind") == "compile-failed" and getattr(self, "drv", None) is not None:
             files = (replay.get("input") or {}).get("files") or {}
             try:
